@@ -84,6 +84,9 @@ def big_cases(rng, thorough=False):
         {"mode": "big", "name": "big-4GiB+-8MiB", "size": G4 + 4 * M + 5, "chunk": 8 * M, "data": [0, 255, 511, 512], "need": [511, 512], "streams": 2},
         {"mode": "big", "name": "big-4GiB+-1MiB", "size": G4 + 3 * M + 1, "chunk": M, "data": [0, 1, 4095, 4096, 4098], "need": [4095, 4096, 4098], "streams": 4},
     ]
+    # everything recorded, the last recorded chunk (beyond 4 GiB) torn: the hash comparison has to find and repair it
+    cases.append({"mode": "big", "name": "big-all-recorded-last-torn", "size": G4 + 2 * M + 77, "chunk": M, "data": [0, 4095, 4096, 4098], "need": [], "damage": [4098], "streams": 2})
+    cases.append({"mode": "big", "name": "big-highest-torn-hole-before", "size": G4 + 5 * M, "chunk": 2 * M, "data": [0, 2047, 2048, 2050], "need": [2049], "damage": [2050], "streams": 1})
     for i in range(6 if thorough else 1):
         chunk = rng.choice([M, 2 * M, 4 * M, 16 * M])
         size = G4 * rng.range(1, 3) + rng.range(1, 64) * M + rng.range(0, 999)
@@ -113,6 +116,8 @@ def judge_big(ctx, prop, cases, results):
             ctx.violation("C19:offset-above-4GiB", f"{c['name']} ({c['size']} bytes, chunk {c['chunk']}): chunks beyond 2^32 bytes were not written where the sender read them: {bytes_[:4]}", rep)
         if prop == "C01" and bytes_ and r.get("sender_ok") and r.get("recv_ok"):
             ctx.violation("C01:tree-differs:above-4GiB", f"{c['name']}: both endpoints reported success but the file differs: {bytes_[:4]}", rep)
+        if prop == "C06" and bytes_ and r.get("sender_ok") and r.get("recv_ok"):
+            ctx.violation("C06:wrong-tree:torn-chunk-above-4GiB", f"{c['name']}: the torn chunk {c.get('damage')} recorded as complete was not repaired by the resumed run, which reported success: {bytes_[:4]}", rep)
         if prop in ("C01", "C19") and (r.get("hang") or not (r.get("sender_ok") and r.get("recv_ok"))):
             ctx.violation(f"{prop}:big-file-fails", f"{c['name']}: resumed transfer of a {c['size']}-byte file failed: sender={r.get('sender_err')!r} receiver={r.get('recv_err')!r} {r.get('hang', '')}", rep)
     return n
